@@ -92,14 +92,25 @@ LAYER_IDS = {"YowIqProtocolLayer": 16, "YowPresenceProtocolLayer": 14, "YowProfi
              "YowContactsIqProtocolLayer": 18, "YowMediaProtocolLayer": 22}
 
 
-def protocol_stack():
-    """[bottom probe, axolotl control, (axolotl send|receive), (all protocol layers), interface layer, top probe]"""
+def protocol_stack(iq_handler=False):
+    """[bottom probe, axolotl control, (axolotl send|receive), (all protocol layers), interface layer, top probe]
+    iq_handler: the application's interface layer declares a catch-all handler for iq entities (as yowsup-cli's does); what it gets it hands on
+    to the top probe, so that "reached the application as an ordinary entity" is observed in the same place either way"""
     from yowsup.layers import YowParallelLayer
     from yowsup.layers.interface import YowInterfaceLayer
     from yowsup.stacks import YowStack, YowStackBuilder
     from lib.probes import Probe
     layers = YowStackBuilder.getDefaultLayers()
     bottom, top = Probe("bottom"), Probe("top")
-    iface = YowInterfaceLayer()
+    if iq_handler:
+        from yowsup.layers.interface import ProtocolEntityCallback
+
+        class AppWithIqHandler(YowInterfaceLayer):
+            @ProtocolEntityCallback("iq")
+            def on_iq(self, entity):
+                self.toUpper(entity)
+        iface = AppWithIqHandler()
+    else:
+        iface = YowInterfaceLayer()
     stack = YowStack((bottom,) + tuple(layers[5:]) + (iface, top), reversed=False)
     return stack, bottom, iface, top
